@@ -5,7 +5,7 @@ from .. import gen, refs, configs, scriptrun as sr, outputs, sexpr
 from ..core import Campaign, CaseResult, Violation, h
 from ..terms import to_smt, T, strip_named, names_in
 
-N_QUICK = {"C06": 420, "C07": 320}
+N_QUICK = {"C06": 300, "C07": 300}
 N_THOROUGH = {"C06": 16000, "C07": 12000}
 
 
@@ -243,6 +243,7 @@ def dup_symptom(cmds):
         for j in range(i + 1, len(txt)):
             if txt[i] == txt[j]:
                 return "dup"
+    txt = txt[:14]
     for i in range(len(txt)):
         for j in range(i + 1, len(txt)):
             q = refs.quick("\n".join(decls + ["(assert (not (= %s %s)))" % (txt[i], txt[j])]))
@@ -304,6 +305,12 @@ def case(param):
         if cls in seen:
             continue
         seen.add(cls)
+
+        from ..core import is_known
+        if is_known(prop, cls, site_for(cls, cmds, b)):
+            res.viol.append(Violation(cls, site_for(cls, cmds, b), "%s (command #%d, not minimised: matches a known finding)\n%s" % (
+                cls, b[0], b[2][:600]), sr.witness(cmds, prop=prop)))
+            continue
 
         def pred(cand, cls=cls):
             bb, _ = judge(cand, prop)
